@@ -298,10 +298,11 @@ def r3_agree(chk, prog, m):
     chk.touched(fi)
     chk.touched(fl_)
     n = 0
-    for SIZE in (8, 6, 5, 3):
+    for SIZE in ((8, 6, 5, 3) if chk.tier != "thorough" else (8, 6, 5, 3, 7, 12, 16, 24)):
         bad = None
         und = None
-        for h in (1, SIZE - 1, SIZE, SIZE + 1, 2 * SIZE + 2, 4 * SIZE - 1, 1000003):
+        for h in ((1, SIZE - 1, SIZE, SIZE + 1, 2 * SIZE + 2, 4 * SIZE - 1, 1000003) if chk.tier != "thorough" else
+                  tuple(range(0, 3 * SIZE + 1)) + (1000003, (1 << 32) - 1, (1 << 32) + 5)):
             for taken in (False, True):
                 slots = {i: _sent(EMPTY) for i in range(SIZE)}
                 cnt = 0
